@@ -60,7 +60,8 @@ def cases(draw, tier):
                                           "inf" if kind in ("walk", "edit1") else 1000])),
             "salt": draw(st.integers(0, 2 ** 16)),
             "layout": draw(st.sampled_from([None, None, None, "F", "strided", "offset", "int32"])),
-            "np_start": draw(st.sampled_from([False, False, True]))}
+            "np_start": draw(st.sampled_from([False, False, True])),
+            "np_args": draw(st.sampled_from([False, False, False, True]))}
 
 
 def evaluate(case):
@@ -89,7 +90,8 @@ def evaluate(case):
     labels = ["walk" if walk else "not_walk", "check:" + kind, "indel" if case["indel"] else "no_indel",
               "heap=%g" % heap, "k=%d" % k]
     result, lookups, _ = repairing.run_repair(rows, k, start, text, check=check, has_indel=case["indel"],
-                                              heap_size=heap, layout=case.get("layout"), np_start=bool(case.get("np_start")))
+                                              heap_size=heap, layout=case.get("layout"), np_start=bool(case.get("np_start")),
+                                              np_args=bool(case.get("np_args")))
     if case.get("layout"):
         labels.append("layout:" + case["layout"])
     what = "repair_dna(%r, k=%d, start=%d, check=%r, has_indel=%s, heap_size=%g)" \
